@@ -813,4 +813,20 @@ example (client : Browsing.Client) (rnd : Crypt.Rnd) (servers : List Browsing.Se
   ⟨(tcp_pipeline_refines_handle _ client _ (fun _ => rfl) rnd).1.mpr ⟨[Bytes.ofAscii "hostname", Bytes.ofAscii "gamever"], by decide⟩,
    (tcp_pipeline_refines_handle _ client _ (fun _ => rfl) rnd).2.mpr (by decide), rfl⟩
 
+/-- **Configuration wiring (regenerated fact).**  How configuration reaches the reporter and browser components: listen addresses, the UDP read buffer size, the TCP client timeout: every field of every
+configuration literal in `cmd/swat4master` that concerns this property, with the source text of the value it is given
+(`verifharness facts`, go/ast, on every run).  A command-line value wired to another field, a unit conversion or a
+`max`/`min` slipped into one of these literals changes the generated list and breaks this theorem; the harness itself
+drives these components through their real fx modules (DESIGN 10.8), this pins what the modules are given. -/
+def configRows : List (String × String × String × String × String) :=
+    [("components/browser/browser.go", "*command.Run", "Config", "ListenAddr", "c.BrowserListenAddr"),
+     ("components/browser/browser.go", "*command.Run", "Config", "ClientTimeout", "c.BrowserClientTimeout"),
+     ("components/reporter/reporter.go", "*command.Run", "Config", "ListenAddr", "c.ReporterListenAddr"),
+     ("components/reporter/reporter.go", "*command.Run", "Config", "BufferSize", "c.ReporterBufferSize")]
+
+theorem facts_config_wiring :
+    (Facts.configWiring.filter fun r => configRows.contains r) = configRows ∧
+    (Facts.configWiring.filter fun r => configRows.any fun c => c.1 == r.1 && c.2.1 == r.2.1 && c.2.2.1 == r.2.2.1 && c.2.2.2.1 == r.2.2.2.1) = configRows := by
+  decide
+
 end Swat4.C06
